@@ -7,6 +7,8 @@ use tokio::io::{self, AsyncRead, AsyncReadExt};
 use self::chunks::read_chunks;
 use super::read_metadata;
 
+const MAX_PREALLOCATED_LEN: usize = 1 << 12;
+
 pub(super) async fn read_bins<R>(
     reader: &mut R,
 ) -> io::Result<(IndexMap<usize, Bin>, Option<Metadata>)>
@@ -28,7 +30,9 @@ where
         usize::try_from(n).map_err(|e| io::Error::new(io::ErrorKind::InvalidData, e))
     })?;
 
-    let mut bins = IndexMap::with_capacity(n_bin);
+    // The count is read from the input and is not yet validated, i.e., only a limited capacity is
+    // preallocated, and the collection grows as entries are read.
+    let mut bins = IndexMap::with_capacity(n_bin.min(MAX_PREALLOCATED_LEN));
     let mut metadata = None;
 
     for _ in 0..n_bin {
